@@ -165,3 +165,80 @@ theorem strTrunc_tokens (w : Nat) (ts : List Tok) (hok : ∀ t ∈ ts, t.ok = tr
     · right; rw [h1]; omega
 
 end Qentem.Json
+
+/-! ## Documents over the concrete token classes -/
+
+set_option linter.unusedVariables false
+
+namespace Qentem.Json
+open Qentem.Unicode Qentem.StrToNum
+
+/-- Decimal integer numerals in the 64-bit range with the number they denote. -/
+inductive IntTok : List Nat → NumKind → Nat → Prop
+  | zero : IntTok [48] .natural 0
+  | natural (d1 : Nat) (xs : List Nat) (h1 : isNonZeroDigit d1 = true) (hxs : AllDigits xs)
+      (hv : decVal (d1 :: xs) < 2 ^ 64) : IntTok (d1 :: xs) .natural (decVal (d1 :: xs))
+  | negative (d1 : Nat) (xs : List Nat) (h1 : isNonZeroDigit d1 = true) (hxs : AllDigits xs)
+      (hv : decVal (d1 :: xs) ≤ 2 ^ 63) : IntTok (45 :: d1 :: xs) .integer (2 ^ 64 - decVal (d1 :: xs))
+
+/-- String bodies made of tokens the un-escaper accepts (plain units of any width, the eight short
+escapes, `\uXXXX`, surrogate pairs), with the text they decode to at character width `w`. -/
+def StrTok (w : Nat) (body text : List Nat) : Prop :=
+  ∃ ts : List Tok, (∀ t ∈ ts, t.ok = true) ∧ body = ts.flatMap Tok.src ∧ text = ts.flatMap (Tok.out w)
+
+mutual
+/-- Documents whose leaves are keywords, `IntTok` numerals and `StrTok` strings (member names
+too), with RFC whitespace at every layout position. -/
+def Conc (w : Nat) : JDoc → Prop
+  | .num tok kind bits => IntTok tok kind bits
+  | .str body text => StrTok w body text
+  | .arr ws0 items => AllWs ws0 ∧ ConcItems w items
+  | .obj ws0 ms => AllWs ws0 ∧ ConcMembers w ms
+  | _ => True
+def ConcItems (w : Nat) : List (Ws × JDoc × Ws) → Prop
+  | [] => True
+  | (wsB, doc, wsA) :: rest => AllWs wsB ∧ Conc w doc ∧ AllWs wsA ∧ ConcItems w rest
+def ConcMembers (w : Nat) : List (Ws × List Nat × List Nat × Ws × Ws × JDoc × Ws) → Prop
+  | [] => True
+  | (wsB, kbody, ktext, ws1, ws2, doc, wsA) :: rest =>
+    AllWs wsB ∧ StrTok w kbody ktext ∧ AllWs ws1 ∧ AllWs ws2 ∧ Conc w doc ∧ AllWs wsA ∧ ConcMembers w rest
+end
+
+theorem intTok_spec (w : Nat) {tok : List Nat} {kind : NumKind} {bits : Nat} (h : IntTok tok kind bits) :
+    NumSpec (jsonDeps w) tok kind bits ∧ NumTrunc (jsonDeps w) tok := by
+  cases h with
+  | zero => exact ⟨numSpec_zero w, numTrunc_zero w⟩
+  | natural d1 xs h1 hxs hv => exact ⟨numSpec_natural w d1 xs h1 hxs hv, numTrunc_natural w d1 xs h1 hxs hv⟩
+  | negative d1 xs h1 hxs hv => exact ⟨numSpec_negative w d1 xs h1 hxs hv, numTrunc_negative w d1 xs h1 hxs hv⟩
+
+theorem strTok_spec (w : Nat) {body text : List Nat} (h : StrTok w body text) :
+    StrSpec (jsonDeps w) body text ∧ StrTrunc (jsonDeps w) body := by
+  obtain ⟨ts, hok, rfl, rfl⟩ := h
+  exact ⟨strSpec_tokens w ts hok, strTrunc_tokens w ts hok⟩
+
+mutual
+/-- Such documents are well-formed and truncation-safe for the linked sub-routines. -/
+theorem conc_wft (w : Nat) : ∀ (doc : JDoc), Conc w doc → WF (jsonDeps w) doc ∧ TS (jsonDeps w) doc
+  | .null, _ => ⟨trivial, trivial⟩
+  | .tru, _ => ⟨trivial, trivial⟩
+  | .fals, _ => ⟨trivial, trivial⟩
+  | .num tok kind bits, h => intTok_spec w h
+  | .str body text, h => strTok_spec w h
+  | .arr ws0 items, h => ⟨⟨h.1, (concItems_wft w items h.2).1⟩, (concItems_wft w items h.2).2⟩
+  | .obj ws0 ms, h => ⟨⟨h.1, (concMembers_wft w ms h.2).1⟩, (concMembers_wft w ms h.2).2⟩
+theorem concItems_wft (w : Nat) : ∀ (items : List (Ws × JDoc × Ws)), ConcItems w items →
+    WFItems (jsonDeps w) items ∧ TSItems (jsonDeps w) items
+  | [], _ => ⟨trivial, trivial⟩
+  | (wsB, doc, wsA) :: rest, h =>
+    ⟨⟨h.1, (conc_wft w doc h.2.1).1, h.2.2.1, (concItems_wft w rest h.2.2.2).1⟩,
+      ⟨(conc_wft w doc h.2.1).2, (concItems_wft w rest h.2.2.2).2⟩⟩
+theorem concMembers_wft (w : Nat) : ∀ (ms : List (Ws × List Nat × List Nat × Ws × Ws × JDoc × Ws)), ConcMembers w ms →
+    WFMembers (jsonDeps w) ms ∧ TSMembers (jsonDeps w) ms
+  | [], _ => ⟨trivial, trivial⟩
+  | (wsB, kbody, ktext, ws1, ws2, doc, wsA) :: rest, h =>
+    ⟨⟨h.1, (strTok_spec w h.2.1).1, h.2.2.1, h.2.2.2.1, (conc_wft w doc h.2.2.2.2.1).1, h.2.2.2.2.2.1,
+        (concMembers_wft w rest h.2.2.2.2.2.2).1⟩,
+      ⟨(strTok_spec w h.2.1).2, (conc_wft w doc h.2.2.2.2.1).2, (concMembers_wft w rest h.2.2.2.2.2.2).2⟩⟩
+end
+
+end Qentem.Json
